@@ -21,13 +21,11 @@ mutual
     | .debugger p => some (.debugger p)
     | .log p b => (toBlock? b).map fun b' => .log p b'
     | .ifc p conds => (toConds? conds).map fun c => .ifc p c
-    | .forc p v l b ie =>
-      match toBlock? b with
-      | none => none
-      | some b' =>
-        match ie with
-        | .nil => some (.forc p v l b' none)
-        | .cons e _ => (toBlock? e).map fun e' => .forc p v l b' (some e')
+    | .forc p v l b .nil => (toBlock? b).map fun b' => .forc p v l b' none
+    | .forc p v l b (.cons e _) =>
+      match toBlock? b, toBlock? e with
+      | some b', some e' => some (.forc p v l b' (some e'))
+      | _, _ => none
     | .switch p v cases => (toCases? cases).map fun c => .switch p v c
     | .call p n all d params => (toParams? params).map fun ps => .call p n all d ps
     | .letValue p n e => some (.letValue p n e)
